@@ -95,6 +95,25 @@ func c11Classes() []errClass {
 			p.Soil[r.Intn(len(p.Soil))].Texture = "XQ7"
 			return p, nil, nil
 		}},
+		// ... with a pedotransfer function switched on (the capacities then come from sand / silt / clay, the texture class is
+		// still looked up in both tables by Hydro): in config.yml and on the batch line
+		{Name: "texture-not-in-tables:ptf-in-config", Reported: true, Listed: true, Expect: "not listed", Build: func(r *vh.Rng, name string) (*proj.Project, []string, func(string) error) {
+			p := genWithCrop(r, name)
+			p.Soil[r.Intn(len(p.Soil))].Texture = "XQ7"
+			for i := range p.Soil {
+				p.Soil[i].Sand, p.Soil[i].Silt, p.Soil[i].Clay = 40, 40, 20
+			}
+			p.Cfg["PTF"] = fmt.Sprint(r.Range(1, 4))
+			return p, nil, nil
+		}},
+		{Name: "texture-not-in-tables:ptf-on-line", Reported: true, Listed: true, Expect: "not listed", Build: func(r *vh.Rng, name string) (*proj.Project, []string, func(string) error) {
+			p := genWithCrop(r, name)
+			p.Soil[r.Intn(len(p.Soil))].Texture = "XQ7"
+			for i := range p.Soil {
+				p.Soil[i].Sand, p.Soil[i].Silt, p.Soil[i].Clay = 40, 40, 20
+			}
+			return p, []string{"PTF=" + fmt.Sprint(r.Range(1, 4))}, nil
+		}},
 		{Name: "texture-fractions-inconsistent", Reported: true, Listed: true, Expect: "does not sum up", Build: func(r *vh.Rng, name string) (*proj.Project, []string, func(string) error) {
 			p := genWithCrop(r, name)
 			p.Cfg["PTF"] = fmt.Sprint(r.Range(1, 4))
@@ -113,6 +132,13 @@ func c11Classes() []errClass {
 			p := genWithCrop(r, name)
 			ro := p.Rot[1]
 			p.Til = []proj.TilEv{{Depth: 20, Kind: 1, Date: proj.FromZ(r.Range(ro.Sow.Z()+3, ro.Harvest.Z()-3))}}
+			return p, nil, nil
+		}},
+		// ... behind a seedbed pass on the day before sowing or on the sowing day
+		{Name: "tillage-between-sowing-and-harvest:after-seedbed-pass", Reported: true, Listed: true, Expect: "tillage date", Build: func(r *vh.Rng, name string) (*proj.Project, []string, func(string) error) {
+			p := genWithCrop(r, name)
+			ro := p.Rot[1]
+			p.Til = []proj.TilEv{{Depth: 10, Kind: 1, Date: ro.Sow.AddDays(-r.Intn(2))}, {Depth: 20, Kind: 1, Date: proj.FromZ(r.Range(ro.Sow.Z()+3, ro.Harvest.Z()-3))}}
 			return p, nil, nil
 		}},
 		{Name: "start-year-mismatch", Reported: true, Listed: true, Expect: "start year", Build: func(r *vh.Rng, name string) (*proj.Project, []string, func(string) error) {
